@@ -2157,6 +2157,7 @@ class Canon:
         b = lift_ifexp(b)
         b = lift_walrus(b)
         b = norm.first_match_to_next(b)
+        b = norm.lower_reduce(b)
         b = self.explicit_base_init(b, module, cls)
         look = self._lookup(module, cls, fn, set(inline), set(keep), accessors, supers)
         from .genloop import inline_generator_loops, inline_guard_helpers
